@@ -36,7 +36,7 @@ ASSUMPTIONS = [
 ]
 MUST_SEE = [
     "rejected_ASTNodeDuplicateChildrenError", "rejected_ASTNodeParentCollisionError", "rejected_ASTNodeIDCollisionError", "rejected_ASTNodeRegistryCollisionError",
-    "rejected_ASTNodeReplaceError", "rejected_ASTNodeReplaceWithError", "rejected_ASTTransformError", "failing_element_not_first", "frames_compared", "nested_failing_element",
+    "rejected_ASTNodeReplaceError", "rejected_ASTNodeReplaceWithError", "rejected_ASTTransformError", "failing_element_not_first", "frames_compared", "nested_failing_element", "two_collided_children",
 ]
 CONFIG = {
     "quick": {"shards": 16, "histories": 120, "ops": 18, "rejects": 30, "watchdog_s": 600},
@@ -100,8 +100,8 @@ def run_shard(ctx):
             kind = rng.choices(
                 ["dup_seq", "dup_two_fields", "parent_collision", "parent_collision_nested", "id_collision", "attach_collision", "attach_collision_nested",
                  "replace_keys", "replace_dup", "replace_parent_collision", "rw_has_parent", "rw_wrong_class", "rw_none_required", "rw_attach_fails",
-                 "transform_raises", "transform_removes_required", "transformer_raises"],
-                [3, 3, 1, 1, 3, 3, 1, 3, 1, 1, 3, 3, 3, 1, 3, 3, 3],
+                 "transform_raises", "transform_removes_required", "transformer_raises", "rw_clone_of_attached", "parent_collision_two"],
+                [3, 3, 1, 1, 3, 3, 1, 3, 1, 1, 3, 3, 3, 1, 3, 3, 3, 2, 2],
             )[0]
             where = rng.choice(["first", "middle", "last"])
             if kind == "dup_seq":
@@ -224,6 +224,35 @@ def run_shard(ctx):
                     return None
                 n = rng.choice(c)
                 return ("replace_with", "first", n, [], lambda: n.replace_with(None))
+            if kind == "rw_clone_of_attached":
+                # new = detached clone (same ids) of an unrelated attached tree with children: its attach fails at a nested id
+                n = rng.choice([h for h in F.handles if not h.detached] or F.handles)
+                xs = [h for h in F.handles if not h.detached and h.parent is None and struct_children(U, h) and not (F.objs_of(h) & F.tree_objs_containing(n))]
+                if not xs:
+                    return None
+                X = rng.choice(xs)
+                new = X.duplicate(as_detached_clone=True)
+                F.add(new)
+                p = n.parent
+                if p is not None:
+                    f = next(f for f in U.child_fields(type(p).__name__) if f.name == n.parent_field.name)
+                    if not isinstance(new, tuple(U.cls[t_] for t_ in f.types)):
+                        return None
+                ctx.count("nested_failing_element")
+                return ("replace_with_attach_fails", "nested", n, [new], lambda: n.replace_with(new))
+            if kind == "parent_collision_two":
+                # two of the supplied children already belong to other parents
+                cs = [h for h in F.handles if not h.detached and h.parent is not None]
+                if len(cs) < 2:
+                    return None
+                c1, c2 = rng.sample(cs, 2)
+                if id(c1) in F.objs_of(c2) or id(c2) in F.objs_of(c1):
+                    return None
+                seq = [leaf(), c1, leaf(), c2, leaf()]
+                if where == "first":
+                    seq = seq[1:]
+                ctx.count("two_collided_children")
+                return ("construct", where, None, seq, lambda: U.cls[f"{P}List"](items=tuple(seq), origin=NO))
             if kind == "rw_attach_fails":
                 # new node is detached and one of its descendants' ids is taken by an attached node outside n's subtree
                 if rng.random() < 0.4:
@@ -305,7 +334,7 @@ def run_shard(ctx):
                 return ("transformer_execute", "nested", n, [x, victim], lambda: T().execute(n))
             return None
 
-        def classify(opname, ename, diff, recv, args):
+        def classify(opname, ename, diff, recv, args, before):
             """Mechanism of a frame difference. Three recorded mechanisms (see known_findings.json) are recognised
             narrowly: which nodes changed (by their role in the call) and which observables; anything else keeps a
             specific mechanism name and is reported."""
@@ -326,10 +355,13 @@ def run_shard(ctx):
                     continue
                 k = dd["obj"]
                 role = "other"
+                had_parent = before["nodes"][k][1] is not None
                 if recv is not None and k == id(recv):
                     role = "receiver"
                 elif k in arg_sub:
-                    role = "argument-subtree"
+                    # the recorded mechanisms concern arguments that were free (no parent) and got (partly) attached;
+                    # an argument that *had* a parent elsewhere and changed is something else
+                    role = "argument-with-parent" if (had_parent and k not in recv_kids) else "argument-subtree"
                 elif k in recv_kids:
                     role = "child-of-receiver"
                 elif k in recv_sub:
@@ -400,7 +432,7 @@ def run_shard(ctx):
                 ctx.sample({"operation": opname, "error": ename, "failing_element": where, "receiver": desc(recv), "args": [desc(a) for a in args if hasattr(a, "detached")]})
             diff = F.frame_diff(before)
             if diff:
-                mech, roles = classify(opname, ename, diff, recv, args)
+                mech, roles = classify(opname, ename, diff, recv, args, before)
                 ctx.violation(mech, f"a rejected {opname} ({ename}) changed pre-existing nodes", {"operation": opname, "error": ename, "failing_element": where, "receiver": desc(recv), "roles_changed": roles, "changes": diff[:6], "history": R.log[-8:]})
                 break
             # the forest must still be consistent for the next rejection
